@@ -14,19 +14,30 @@ proves nothing. The content of the property is
  (b) the producer path (skips failing txs, may stop on a timeout) and the validator path (executes exactly
      the block's list, rejects on the first failure) agree.
 
-(a) Tie T: `tools/goext nondet` regenerates, on every run, the inventory of all such places in the
-    consensus-critical packages (`Aergo.Gen.NondetSites`); `Aergo.Nondet.table` maps each one to a theorem
-    of this file, to the reason why it cannot feed state, or to "sampled only" (goroutines, code behind the
-    VM stub). `all_sites_covered` fails on an unmapped site; `cited_theorems_exist` fails on a dangling name.
+(a) Tie T: `tools/goext nondet` regenerates, on every run, the inventory of all such places — and of the other
+    syntactic sources of order / timing / node dependence: `sort.*` calls, context polls, environment reads,
+    `reflect` map walks, `%p` — in every package of the module that `chain`, `consensus/chain` or
+    `consensus/impl/dpos` transitively import (`Aergo.Gen.NondetSites`; `closure_scanned`);
+    `Aergo.Nondet.table` maps each one to a theorem of this file, to the reason why it cannot feed state, or to
+    "sampled only" (goroutines, code behind the VM stub). `all_sites_covered` fails on an unmapped site;
+    `cited_theorems_exist` fails on a dangling name. The classification is tied to what the loop **body** does:
+    for every map iteration the extractor summarises the body (early exits, non-local write targets, callees,
+    state-writing callees, fingerprint) and `all_loops_match` / `loop_class_rules` compare it with the summary recorded
+    when the site was classified (`thm` sites are pinned by fingerprint, `noState` sites call no state writer).
     For every state-feeding map iteration `Aergo.Determ` has a model that takes the iteration order as an
     argument, and the theorems below prove the result invariant under permutation of that argument, for all
     states, all map sizes, all orders:
       stateBuffer.export/stage, bufferIndex.rollback, StateDB.updateStorage/Commit, storageCache.Snapshot/
       Rollback, CacheDB.commit, SetGenesis, VoteResult.buildVoteList + sort, vpr.apply (both loops),
-      swapTxMapping.
+      swapTxMapping;
+    loops that `return err` from inside the `range` refine an order-free specification (`tryFold_spec`), and the
+    per-loop results lift to whole histories of loops by induction (`runVisits_perm_invariant`).
     `sort.Sort`/`sort.Slice` are modelled as *any* algorithm returning a sorted permutation.
-(b) `producer_validator_agree`, by induction over the candidate list, for any transaction executor whose
-    failing runs leave the block state unchanged (`NewTxExecutor`: snapshot / rollback — C12/C03).
+(b) `producer_validator_agree`, by induction over the candidate list, for any transaction executor that reads an
+    explicit environment (execution mode, context ended, node-local inputs) and answers ok / error / timeout inside
+    the VM, under `hrb` (an unsuccessful run leaves the block state unchanged: `NewTxExecutor` snapshot /
+    rollback — C12/C03) and `henv` (a successful run is reproduced by a validator of any node);
+    `validate_node_independent`, `block_producer_validator_agree` (the reward goes to the header's coinbase account).
 
 Findings recorded here:
  * `VoteList.Less` (types/vote.go) as it is on the pinned tree (after repair 1c75543b) is a strict total
